@@ -758,17 +758,14 @@ where
             None
         };
 
-        //TODO: this should be checking against the reference picture to see if we need RPRP
-        let reference_picture_resampling = if options
-            .contains(PictureOption::REFERENCE_PICTURE_RESAMPLING)
-            || previous_picture
-                .map(|p| p.format != format)
-                .unwrap_or(false)
-        {
-            decode_rprp(reader)?
-        } else {
-            None
-        };
+        // RPRP is present only if the Reference Picture Resampling bit is set in
+        // MPPTYPE (H.263 5.1.18); a size change without it is implicit.
+        let reference_picture_resampling =
+            if options.contains(PictureOption::REFERENCE_PICTURE_RESAMPLING) {
+                decode_rprp(reader)?
+            } else {
+                None
+            };
 
         let quantizer: u8 = reader.read_bits(5)?;
 
